@@ -40,6 +40,15 @@ Theorem C15_other_names_kept : forall rt d rt' n, reg_route rt d = Ok rt' -> n <
   assoc n (named rt') = assoc n (named rt).
 Proof. exact get_route_other_names_kept. Qed.
 
+(* Route.NamedTo (any route, attached or not, named before or not): afterwards the name yields that route, every other
+   name - the route's earlier names included - yields what it did, and the route tables are untouched *)
+Theorem C15_named_to : forall rt n rid, trim_space n <> [] ->
+  assoc (trim_space n) (named (named_to rt n rid)) = Some rid.
+Proof. exact named_to_get. Qed.
+Theorem C15_named_to_keeps : forall rt n rid m, m <> trim_space n ->
+  assoc m (named (named_to rt n rid)) = assoc m (named rt).
+Proof. exact named_to_other. Qed.
+
 (* known findings K3 / K4 (not repaired): a trailing space is trimmed by lookup normalisation; a value containing another
    placeholder's text is replaced again by the next replacement pass *)
 Definition k3_path : str := [47;112;47;123;110;125]%N.           (* /p/{n} *)
@@ -60,3 +69,5 @@ Print Assumptions C15_get_route.
 Print Assumptions C15_other_names_kept.
 Print Assumptions C15_trailing_space_refuted.
 Print Assumptions C15_brace_value_refuted.
+Print Assumptions C15_named_to.
+Print Assumptions C15_named_to_keeps.
